@@ -970,9 +970,9 @@ func (w *World) genDisputeOp(a int) genOp {
 	roles := w.backersOf(rep)
 	if bond {
 		for k, v := range w.selectorsOf(a) {
-			if roles[k] == "" {
-				roles[k] = v
-			}
+			// also when the account backs the disputed reporter as well (a reporter disputing its own report, a shared
+			// selector): the second exception names it
+			roles[k] = v
 		}
 	}
 	return genOp{name: "ProposeDispute", signer: a, roles: roles, params: []*big.Int{bi(int64(b2i(bond)))}, run: func(ctx sdk.Context) error {
